@@ -219,7 +219,8 @@ def drive(pid, lines, label, flavour):
     events = vlib.read_ndjson(trace)
     if len(events) != len(lines):
         raise vlib.MachineryError("driver produced %d events for %d operations (%s/%s)" % (len(events), len(lines), label, flavour))
-    if any(e["op"] == "skipped" for e in events) and sum(1 for e in events if e["op"] == "crash") < 40:
+    ncrash = sum(1 for e in events if e["op"] == "crash")
+    if any(e["op"] == "skipped" for e in events) and ncrash < 40 and sum(1 for e in events if e["op"] == "crash" and e["why"] == "timeout") < 4:
         raise vlib.MachineryError("driver skipped operations without the crash limit being reached (%s/%s)" % (label, flavour))
     for e in events:
         if e["op"] == "crash" and e["phase"] == "driver":
